@@ -134,6 +134,7 @@ def plan(ctx):
     contracts(ctx.registry)
     p.functions = [E + "_initialize_data#all", E + "_initialize_data#jit", E + "calculate_next#first",
                    E + "calculate_next#later", E + "calculate_next#later-saving"]
+    p.oracles = ["native/oracle_C08.py"]
     # the two recurrences over whole rows need congruence of nested sums under binders, where the SMT back end does not
     # terminate; they are checked as bounded stand-ins (all values symbolic, sizes fixed) and not counted as proved
     p.bounded = [bounded_contract(E + "_calculate_remainig_using_first_interval",
